@@ -185,7 +185,22 @@ impl<T: ?Sized> RwLock<T> {
     }
 
     fn read_unlock(&self) {
-        let mut r = self.rlock.lock().expect("rwlock read_unlock");
+        // this runs in the drop of a read guard. for a coroutine with a pending
+        // cancel it must not be a cancellation point: the Cancel panic would leave
+        // the lock read locked for ever. (while unwinding we can't wait like this)
+        let cancel = if crate::coroutine_impl::is_coroutine() && !std::thread::panicking() {
+            Some(crate::coroutine_impl::current_cancel_data())
+        } else {
+            None
+        };
+        if let Some(c) = cancel {
+            c.disable_cancel();
+        }
+        let r = self.rlock.lock();
+        if let Some(c) = cancel {
+            c.enable_cancel();
+        }
+        let mut r = r.expect("rwlock read_unlock");
         *r -= 1;
         if *r == 0 {
             self.unlock();
